@@ -175,6 +175,19 @@ def run_property(prop, tier="quick", seed=0, repo_root=None, only=None):
         if hasattr(pm, "bounded") and not only:
             try:
                 bounded = pm.bounded(ctx)
+                if tier == "thorough":
+                    # thorough: the randomised part of the stand-in is repeated with further seeds (same enumerations, other
+                    # random plasmids, rotations, spellings); counts are summed, violations merged
+                    base_seed = ctx.seed
+                    for extra in (1, 2):
+                        ctx.seed = base_seed + 1000 * extra
+                        more = pm.bounded(ctx)
+                        for k_ in ("evaluations", "distinct_nontrivial", "n_violations"):
+                            if isinstance(bounded.get(k_), int) and isinstance(more.get(k_), int):
+                                bounded[k_] += more[k_]
+                        bounded["violations"] = list(bounded.get("violations", [])) + list(more.get("violations", []))
+                    ctx.seed = base_seed
+                    bounded["seeds"] = [base_seed, base_seed + 1000, base_seed + 2000]
                 for v in bounded.get("violations", [])[:5]:
                     what = v["what"]
                     kf = [f for f in known.get("findings", []) if finding_matches(f, prop, what)]
